@@ -21,36 +21,73 @@ def model_stream(kind, consts):
     return p[2].split(",") if len(p) > 2 and p[2] else []
 
 
+def top_children(sk):
+    """`F[a,b[c],d]` -> ['a', 'b[c]', 'd']"""
+    if not sk.startswith("F[") or not sk.endswith("]"):
+        return []
+    out, depth, cur = [], 0, ""
+    for ch in sk[2:-1]:
+        if ch == "," and depth == 0:
+            out.append(cur)
+            cur = ""
+            continue
+        depth += ch == "["
+        depth -= ch == "]"
+        cur += ch
+    return out + ([cur] if cur else [])
+
+
 def expected(versions, total):
     """per sample, per observed channel: (expected word or None when the observed instance is not judged, vid, why)"""
-    # life of every instance: birth time, kind, const per sample
-    inst = {}
+    # life of every voice instance: birth time, kind, const per sample; life of every post cell (slot): birth, delay, owners
+    inst, slots = {}, {}
     for k, ver in enumerate(versions):
         if ver["broken"]:
             continue
         t_end = next((v["t"] for v in versions[k + 1:] if not v["broken"]), total)
         for v in ver["voices"]:
-            d = inst.setdefault(v["vid"], dict(kind=v["kind"], born=ver["t"], consts={}, judged_from=ver["t"], depth=v["depth"]))
+            d = inst.setdefault(v["vid"], dict(kind=v["kind"], born=ver["t"], consts={}, nested_at=None, depth=v["depth"]))
             if v["depth"] != d["depth"]:
                 d["depth"] = v["depth"]
-                d["judged_from"] = None      # nested deeper: a different site; not judged from here on
+                if d["nested_at"] is None:
+                    d["nested_at"] = ver["t"]      # nested deeper: a different site; not judged from here on
             for t in range(ver["t"], t_end):
                 d["consts"][t] = v["const"]
+            if v.get("post"):
+                sl = slots.setdefault(v["post"]["pid"], dict(born=ver["t"], d=v["post"]["d"], owner={}))
+                for t in range(ver["t"], t_end):
+                    sl["owner"][t] = v["vid"]
     streams = {}
+
+    def voice_out(vid, u):
+        """word the voice instance `vid` returns at sample u (None: not judged)"""
+        d = inst[vid]
+        if d["nested_at"] is not None and u >= d["nested_at"]:
+            return None
+        if vid not in streams:
+            ts = sorted(d["consts"])
+            streams[vid] = model_stream(d["kind"], [d["consts"][x] for x in ts])
+        return streams[vid][u - d["born"]]
     out = []
     live = [v for v in versions if not v["broken"]]
     for t in range(total):
         ver = [v for v in live if v["t"] <= t][-1]
         row = []
         for vid in ver["observed"]:
-            d = inst[vid]
-            if d["judged_from"] is None:
-                row.append((None, vid, "nested"))
+            v = next(x for x in ver["voices"] if x["vid"] == vid)
+            post = v.get("post")
+            if not post:
+                w = voice_out(vid, t)
+                row.append((w, vid, inst[vid]["kind"] if w is not None else "nested"))
                 continue
-            if vid not in streams:
-                ts = sorted(d["consts"])
-                streams[vid] = model_stream(d["kind"], [d["consts"][x] for x in ts])
-            row.append((streams[vid][t - d["born"]], vid, d["kind"]))
+            # the post cell hands out what went into it d samples ago (zero before the cell existed), whoever fed it then
+            sl = slots[post["pid"]]
+            u = t - sl["d"]
+            if u < sl["born"]:
+                row.append((HALF, vid, "post-cell-still-empty"))
+            else:
+                w = voice_out(sl["owner"][u], u)
+                row.append((w, vid, f"{post['kind']}{sl['d']}({inst[sl['owner'][u]]['kind']})" if w is not None else "nested"))
         out.append(row)
     return out, inst
 
@@ -58,8 +95,9 @@ def expected(versions, total):
 def main(ctx, args):
     ctx.assumptions += [
         "programs: dsp = let c_i = voice_i(const_i) …; (c_a, c_b) with voices from a library of 8 stateful shapes that do not read `now`; "
-        "edits: insert / delete / replace (different shape) / nest deeper / change constant / inject a syntax error, at random swap times",
-        "oracle per observed channel: the reference semantics (drv_prog) of that voice alone, fed the constants it saw since it was created; "
+        "a third of the voices feed a post-processing cell owned by dsp (`delay(8, voice(c), d)` or `mem(voice(c))`: a sibling site after the voice's own state); "
+        "edits: insert / delete / replace (different shape; for a voice inside a post cell mostly only the voice, the cell stays and must keep its content) / nest deeper / change constant / inject a syntax error, at random swap times",
+        "oracle per observed channel: the reference semantics (drv_prog) of that voice alone, fed the constants it saw since it was created (through a post cell: what went into the cell d samples earlier, whichever voice fed it then, zero before the cell existed); "
         "voices that were nested deeper are not judged (a different site); when an untouched voice is not carried the Lean model of the pinned diff decides F5 vs new violation",
         "WASM payloads are built as in C06 (CLI code replicated in the harness, with the new and the previous skeleton)",
     ]
@@ -137,19 +175,40 @@ def main(ctx, args):
             oldv, newv = live[k - 1], live[k]
             if newv["t"] > t:
                 break
-            oi = next((i for i, v in enumerate(oldv["voices"]) if v["vid"] == vid), None)
-            nj = next((i for i, v in enumerate(newv["voices"]) if v["vid"] == vid), None)
-            if nj is None:
+            if not any(v["vid"] == vid for v in newv["voices"]):
                 continue
+            och, nch = voicegen.children_of(oldv["voices"]), voicegen.children_of(newv["voices"])
+            nv = next(v for v in newv["voices"] if v["vid"] == vid)
+            pairs = []
+            pairs.append((och[vid][0] if vid in och else None, nch[vid][0]))
+            if nv.get("post"):
+                # the post cell: carried from the cell with the same pid (its voice may have been replaced)
+                ov = next((v for v in oldv["voices"] if v.get("post") and v["post"]["pid"] == nv["post"]["pid"]), None)
+                pairs.append((och[ov["vid"]][1] if ov else None, nch[vid][1]))
             sk = {}
             for tag, ver in (("o", oldv), ("n", newv)):
                 p = mmh("C05", [], input=json.dumps({"id": "s", "src": voicegen.render(ver["voices"], ver["observed"]), "times": 0, "inputs": []}) + "\n")
                 sk[tag] = p.stdout.split("\t")[2] if len(p.stdout.split("\t")) > 2 else "-"
-            q = driver("C07", input=f"x\t{sk['o']}\t{sk['n']}\t{'-' if oi is None else oi}:{nj}\n")
-            carried = q.stdout.strip().split("\t")[-1]
-            detail.append((newv["t"], sk["o"], sk["n"], oi, nj, carried))
-            if carried in ("0", "R"):      # untouched voice not carried / fresh voice receives old words: the pinned diff's mismatch
-                cls = "F5"
+            # the excuse needs the published skeletons to describe the programs at all: dsp's children must be, in order,
+            # every voice's instance (F[..]) followed by its post cell (D8 / M1) when it has one
+            for tag, ver in (("o", oldv), ("n", newv)):
+                want = []
+                for v in ver["voices"]:
+                    want.append("F")
+                    if v.get("post"):
+                        want.append("D%d" % voicegen.POST_N if v["post"]["kind"] == "delay" else "M1")
+                got = top_children(sk[tag])
+                if len(got) != len(want) or any(not g.startswith(w) for g, w in zip(got, want)):
+                    cls = "skeleton-does-not-describe-the-program"
+                    detail.append((newv["t"], tag, sk[tag], "expected children " + ",".join(want)))
+            if cls == "skeleton-does-not-describe-the-program":
+                break
+            for oi, nj in pairs:
+                q = driver("C07", input=f"x\t{sk['o']}\t{sk['n']}\t{'-' if oi is None else oi}:{nj}\n")
+                carried = q.stdout.strip().split("\t")[-1]
+                detail.append((newv["t"], sk["o"], sk["n"], oi, nj, carried))
+                if carried in ("0", "R"):      # untouched cell not carried / fresh voice receives old words: the pinned diff's mismatch
+                    cls = "F5"
         bad = bad + (detail,)
         if cls == "F5" and any(kf["id"] == "F5" for kf in known):
             f5_hits += 1
